@@ -492,7 +492,9 @@ impl<'a> World<'a> {
         }
         let dirs_full = self.open_dir_count() >= self.limits.0;
         let files_full = self.open_file_count() >= self.limits.1;
-        let nm = Name::Str("STALE.TST".to_string());
+        // variant (m >= 64): a name that is no valid 8.3 name - the closed handle must still be what is reported
+        let nm = Name::Str(if m >= 64 { "BAD*NAME.TXT".to_string() } else { "STALE.TST".to_string() });
+        let m = m % 64;
         let mut errs = vec!["BadHandle"];
         let (name, r): (&'static str, Got<()>) = match m % 9 {
             0 => {
@@ -549,7 +551,7 @@ pub fn reentrant_calls(
     }
     let nm = Name::Str("REENT.TST".to_string());
     let fl = k & 1; // raw or RAII forwarder
-    match (k / 2) % 12 {
+    match (k / 2) % 14 {
         0 => {
             out.push(("open_volume", cls(fs.open_volume(0, fl))));
             out.push(("open_volume", cls(fs.open_volume(1, fl))));
@@ -606,10 +608,27 @@ pub fn reentrant_calls(
             // close_dir on another handle value (same table)
             out.push(("close_dir", cls(fs.close_dir(d, fl.min(1)))));
         }
-        _ => {
+        11 => {
             if let Some(f) = f {
                 out.push(("close_file", cls(fs.close_file(f, fl.min(1)))));
             }
+        }
+        12 => {
+            // zero-length transfers are calls too
+            if let Some(f) = f {
+                let mut b = [0u8; 0];
+                out.push(("read", cls(fs.read(f, &mut b, fl))));
+                out.push(("write", cls(fs.write(f, b"", fl))));
+            }
+        }
+        _ => {
+            // names that are no valid 8.3 names: the lock comes first
+            let bad = Name::Str("BAD*NAME.TXT".to_string());
+            out.push(("find_directory_entry", cls(fs.find(d, &bad, fl))));
+            out.push(("open_dir", cls(fs.open_dir(d, &bad, fl))));
+            out.push(("open_file_in_dir", cls(fs.open_file(d, &bad, embedded_sdmmc::Mode::ReadOnly, fl))));
+            out.push(("delete_file_in_dir", cls(fs.delete(d, &bad, fl))));
+            out.push(("make_dir_in_dir", cls(fs.make_dir(d, &bad, fl))));
         }
     }
 }
